@@ -137,11 +137,13 @@ def run_property(prop, title, obligations, prog, tier, explanation, assumptions,
             ob.error = f"{type(e).__name__}: {e}{where}"
         except Exception as e:  # noqa -- a crash of the analyser is never a verdict
             ob.status = "UNRECOGNISED"
-            ob.error = f"analyser crash: {type(e).__name__}: {e}\n" + traceback.format_exc(limit=6)
+            ob.error = f"analyser crash: {type(e).__name__}: {e}\n" + traceback.format_exc(limit=int(os.environ.get("VERIF_TRACE_DEPTH", "6")) * (-1 if os.environ.get("VERIF_TRACE") else 1))
         ob.wall = time.time() - t1
         if ob.status == "UNRECOGNISED":
             errors.append(ob)
             lines.append(f"ANALYSIS-ERROR property={prop} obligation={ob.id} {ob.error.splitlines()[0]}")
+            if os.environ.get("VERIF_TRACE") and "\n" in ob.error:
+                lines.extend("    " + ln for ln in ob.error.splitlines()[1:])
             continue
         real = []
         uniq, seen_keys = [], set()
